@@ -30,9 +30,9 @@ Definition ann_bit (tbl : list (string * N)) (bit : N) (s : string) : bool :=
   end.
 
 (** Per-NODE annotation bits computed by the harness from the real yaml.Node (harness/shared_yaml/forest.go):
-    bit 10 = Style has LiteralStyle or FoldedStyle; bit 11 = Style has DoubleQuotedStyle; bits 16.. = len(Anchor). *)
+    bit 10 = Style has LiteralStyle or FoldedStyle; bit 13 = Style has DoubleQuotedStyle (bit 11 belongs to harness/C01); bits 16.. = len(Anchor). *)
 Definition node_block (n : node) : bool := N.testbit (n_ann n) 10.
-Definition node_dq (n : node) : bool := N.testbit (n_ann n) 11.
+Definition node_dq (n : node) : bool := N.testbit (n_ann n) 13.
 Definition node_anchor_len (n : node) : nat := N.to_nat (N.shiftr (n_ann n) 16).
 
 Definition plines_run (lines : list string) (n : node) (min_col : nat) : nat * nat :=
